@@ -13,6 +13,8 @@ R17.2   agent / tmgr / pmgr / session configs: component kinds, tmgr scheduler
 R17.3   `_prepare_pilot`: job sinks and agent sinks are fed by the same values;
         node computation (divisors); agent side reads the keys written
 R17.4   client divisor == usable cores / gpus per node the agent derives
+        (an adjustment of the agent inside a loop counts once per iteration:
+        block membership by the CFG, trip count = len() of what is iterated)
 R17.5   rounding direction on the def-use chain from each division
         `requested amount / usable per node` to the node count handed to the
         agent: only upward rounding, kinds combined by max, whole nodes
@@ -353,9 +355,74 @@ class MergeModel:
                 if r and r[0] == 'class' and _is_td_class(prog, r[1]):
                     self.td = TD.of(prog, r[1])
         if self.td is None:
+            # not a private copy: the merge target is the stored entry itself
+            # (`rcfg = self._rcfgs[site][res]`) - the first resolution still
+            # yields what the copy would (R17.1 mirrors that one); that later
+            # ones do not is R17.6's finding.  The class is the one the
+            # entries are stored as.
+            self.td = self._stored_class(prog, f)
+        if self.td is None:
             raise AnalysisError('UNRECOGNISED-IDIOM %s: %s is not built from '
                                 'a TypedDict class' % (f.where, self.rvar))
 
+        self._schema_operand(f, b)
+        self.verify = any(call_name(c) == self.rvar + '.verify'
+                          for c in calls_in(f.node))
+
+    def _stored_class(self, prog, f):
+        """TD of the class the elements of `self.<attr>` are stored as, when
+        every definition of the merge target is an element of that attribute
+        (`self.<attr>[i][j]`, possibly through one local)"""
+        def root_attr(e, depth=0):
+            while isinstance(e, ast.Subscript):
+                e = e.value
+            if isinstance(e, ast.Attribute) and isinstance(e.value, ast.Name) \
+                    and e.value.id == 'self':
+                return e.attr
+            if isinstance(e, ast.Name) and depth < 3:
+                vals = [n.value for n in walk(f.node)
+                        if isinstance(n, ast.Assign) and any(
+                            isinstance(t, ast.Name) and t.id == e.id
+                            for t in n.targets)]
+                roots = {root_attr(v, depth + 1)
+                         if isinstance(v, (ast.Subscript, ast.Name)) else None
+                         for v in vals}
+                if len(roots) == 1:
+                    return roots.pop()
+            return None
+
+        defs = [n.value for n in walk(f.node)
+                if isinstance(n, ast.Assign) and any(
+                    isinstance(t, ast.Name) and t.id == self.rvar
+                    for t in n.targets)]
+        attrs = {root_attr(v) if isinstance(v, (ast.Subscript, ast.Name))
+                 else None for v in defs}
+        if len(attrs) != 1 or None in attrs or f.cls is None:
+            return None
+        attr = attrs.pop()
+        classes = set()
+        for m in f.cls.methods.values():
+            for n in walk(m.node):
+                if not isinstance(n, ast.Assign):
+                    continue
+                for t in n.targets:
+                    e, depth = t, 0
+                    while isinstance(e, ast.Subscript):
+                        e, depth = e.value, depth + 1
+                    if depth < 2 or not (
+                            isinstance(e, ast.Attribute) and e.attr == attr and
+                            isinstance(e.value, ast.Name) and
+                            e.value.id == 'self'):
+                        continue
+                    r = prog.resolve(m.module, n.value.func) \
+                        if isinstance(n.value, ast.Call) else None
+                    classes.add(r[1] if r and r[0] == 'class' and
+                                _is_td_class(prog, r[1]) else None)
+        if len(classes) != 1 or None in classes:
+            return None
+        return TD.of(prog, classes.pop())
+
+    def _schema_operand(self, f, b):
         # the second operand: <cfg>['schemas'][<schema>] / <cfg>.schemas[..],
         # directly or through a local; an alias step looks the local up again
         def schema_lookup(v):
@@ -414,8 +481,6 @@ class MergeModel:
             raise AnalysisError('UNRECOGNISED-IDIOM %s: the merged operand is '
                                 "not read from <cfg>['schemas'][<schema>]"
                                 % f.where)
-        self.verify = any(call_name(c) == self.rvar + '.verify'
-                          for c in calls_in(f.node))
 
 
 # ------------------------------------------------------------------------------
@@ -1467,12 +1532,251 @@ def _inline_stmts(prog, f, stmts, seq, depth=0):
     return out
 
 
+# ------------------------------------------------------------------------------
+# seeing through record values: a local which only ever holds a namedtuple
+# built in the function (`size = PilotSize(a, b, c)`, possibly the inlined
+# return value of a helper) and is only read field by field (`size.nodes`,
+# `size[2]`, `a, b, c = size`) is replaced by one local per field.  Evaluation
+# order and values are unchanged; the def-use chains of the fields become
+# visible to the symbolic evaluation.
+#
+def _record_fields(prog, mod, func_expr, limps=None):
+    """field names if `func_expr` names a namedtuple type defined in the
+    package (`X = namedtuple('X', 'a b')` or `class X(NamedTuple)` without
+    defaults), else None"""
+    r = prog.resolve(mod, func_expr, limps)
+    if not r:
+        return None
+    if r[0] == 'const':
+        vals = r[2]
+        if len(vals) != 1 or not isinstance(vals[0], ast.Call):
+            return None
+        c = vals[0]
+        rr = prog.resolve(r[1], c.func)
+        if not rr or rr[0] != 'ext' or \
+                rr[1] not in ('collections.namedtuple', 'namedtuple'):
+            return None
+        if any(k.arg not in ('typename', 'field_names') for k in c.keywords):
+            return None
+        fn = kwarg(c, 'field_names', 1)
+        if isinstance(fn, ast.Constant) and isinstance(fn.value, str):
+            fields = fn.value.replace(',', ' ').split()
+        elif isinstance(fn, (ast.List, ast.Tuple)) and all(
+                isinstance(x, ast.Constant) and isinstance(x.value, str)
+                for x in fn.elts):
+            fields = [x.value for x in fn.elts]
+        else:
+            return None
+    elif r[0] == 'class':
+        k = r[1]
+        if not any(dotted(b).split('.')[-1] == 'NamedTuple'
+                   for b in k.node.bases):
+            return None
+        fields = []
+        for s in k.node.body:
+            if isinstance(s, ast.AnnAssign) and isinstance(s.target, ast.Name):
+                if s.value is not None:
+                    return None
+                fields.append(s.target.id)
+            elif isinstance(s, ast.Expr) and isinstance(s.value, ast.Constant):
+                continue
+            else:
+                return None
+    else:
+        return None
+    if not fields or len(set(fields)) != len(fields) or \
+            not all(x.isidentifier() and not x.startswith('_') for x in fields):
+        return None
+    return fields
+
+
+def _const_index(sl):
+    """k of a subscript `[k]` / `[-k]` with a literal integer, else None"""
+    if isinstance(sl, ast.UnaryOp) and isinstance(sl.op, ast.USub):
+        k = _const_index(sl.operand)
+        return None if k is None else -k
+    if isinstance(sl, ast.Constant) and isinstance(sl.value, int) and \
+            not isinstance(sl.value, bool):
+        return sl.value
+    return None
+
+
+def _scalarize(prog, f, node):
+    """split record-valued locals of `node` (a FunctionDef, changed in place)
+    into one local per field; True if something was rewritten"""
+    limps = f.module.local_imports(node)
+
+    def fields_of(call):
+        if not isinstance(call, ast.Call) or any(
+                isinstance(a, ast.Starred) for a in call.args) or any(
+                    k.arg is None for k in call.keywords):
+            return None
+        fl = _record_fields(prog, f.module, call.func, limps)
+        if fl is None:
+            return None
+        got = list(range(len(call.args))) + [
+            fl.index(k.arg) if k.arg in fl else -1 for k in call.keywords]
+        if sorted(got) != list(range(len(fl))):
+            return None
+        return fl
+
+    def ctor_args(call, fl):
+        """[(field, argument)] in the order the arguments are evaluated"""
+        return [(fl[i], a) for i, a in enumerate(call.args)] + \
+            [(k.arg, k.value) for k in call.keywords]
+
+    parent = {}
+    nested = set()
+    for p in ast.walk(node):
+        for c in ast.iter_child_nodes(p):
+            parent[id(c)] = p
+            if id(p) in nested or (p is not node and isinstance(
+                    p, (ast.FunctionDef, ast.AsyncFunctionDef, ast.Lambda,
+                        ast.ClassDef))):
+                nested.add(id(c))
+
+    def single(st):
+        return isinstance(st, ast.Assign) and len(st.targets) == 1 and \
+            isinstance(st.targets[0], ast.Name)
+
+    cand = {}
+    for st in ast.walk(node):
+        if single(st) and id(st) not in nested:
+            fl = fields_of(st.value)
+            if fl is not None:
+                cand.setdefault(st.targets[0].id, fl)
+    if not cand:
+        return False
+    changed = True
+    while changed:
+        changed = False
+        for st in ast.walk(node):
+            if single(st) and isinstance(st.value, ast.Name) and \
+                    st.value.id in cand and st.targets[0].id not in cand:
+                cand[st.targets[0].id] = cand[st.value.id]
+                changed = True
+
+    def use_ok(n):
+        fl = cand[n.id]
+        p = parent.get(id(n))
+        if id(n) in nested:
+            return False
+        if isinstance(n.ctx, ast.Store):
+            if not (single(p) and p.targets[0] is n):
+                return False
+            v = p.value
+            if isinstance(v, ast.Name):
+                return cand.get(v.id) == fl
+            if fields_of(v) != fl:
+                return False
+            # the arguments must not read a record local (sequential stores)
+            return not any(isinstance(x, ast.Name) and x.id in cand
+                           for _, a in ctor_args(v, fl) for x in ast.walk(a))
+        if not isinstance(n.ctx, ast.Load):
+            return False
+        if isinstance(p, ast.Attribute) and p.value is n:
+            return isinstance(p.ctx, ast.Load) and p.attr in fl
+        if isinstance(p, ast.Subscript) and p.value is n:
+            k = _const_index(p.slice)
+            return isinstance(p.ctx, ast.Load) and k is not None and \
+                -len(fl) <= k < len(fl)
+        if isinstance(p, ast.Assign) and p.value is n and len(p.targets) == 1:
+            t = p.targets[0]
+            if isinstance(t, ast.Name):
+                return cand.get(t.id) == fl
+            return isinstance(t, (ast.Tuple, ast.List)) and \
+                len(t.elts) == len(fl) and all(
+                    isinstance(x, ast.Name) and x.id not in cand
+                    for x in t.elts)
+        return False
+
+    changed = True
+    while changed and cand:
+        changed = False
+        for n in ast.walk(node):
+            if isinstance(n, ast.Name) and n.id in cand and not use_ok(n):
+                del cand[n.id]
+                changed = True
+    if not cand:
+        return False
+
+    def fname(x, fld):
+        return '%s__%s' % (x, fld)
+
+    taken = {n.id for n in ast.walk(node) if isinstance(n, ast.Name)} | \
+        {a.arg for a in ast.walk(node) if isinstance(a, ast.arg)}
+    if any(fname(x, fld) in taken for x, fl in cand.items() for fld in fl):
+        return False
+
+    def mk(target, value, loc):
+        st = ast.Assign(targets=[ast.Name(id=target, ctx=ast.Store())],
+                        value=value)
+        ast.copy_location(st, loc)
+        return st
+
+    class Reads(ast.NodeTransformer):
+        def visit_Attribute(self, n):
+            if isinstance(n.value, ast.Name) and n.value.id in cand:
+                return ast.copy_location(
+                    ast.Name(id=fname(n.value.id, n.attr), ctx=ast.Load()), n)
+            return self.generic_visit(n)
+
+        def visit_Subscript(self, n):
+            if isinstance(n.value, ast.Name) and n.value.id in cand:
+                fl = cand[n.value.id]
+                return ast.copy_location(
+                    ast.Name(id=fname(n.value.id, fl[_const_index(n.slice)]),
+                             ctx=ast.Load()), n)
+            return self.generic_visit(n)
+
+    reads = Reads()
+
+    def rewrite(stmts):
+        out = []
+        for st in stmts:
+            if isinstance(st, ast.Assign) and len(st.targets) == 1:
+                t, v = st.targets[0], st.value
+                if isinstance(t, ast.Name) and t.id in cand:
+                    fl = cand[t.id]
+                    if isinstance(v, ast.Name):
+                        out += [mk(fname(t.id, fld), ast.Name(
+                            id=fname(v.id, fld), ctx=ast.Load()), st)
+                            for fld in fl]
+                    else:
+                        out += [mk(fname(t.id, fld), reads.visit(a), st)
+                                for fld, a in ctor_args(v, fl)]
+                    continue
+                if isinstance(v, ast.Name) and v.id in cand:
+                    out += [mk(x.id, ast.Name(id=fname(v.id, fld),
+                                              ctx=ast.Load()), st)
+                            for x, fld in zip(t.elts, cand[v.id])]
+                    continue
+            for fld in ('body', 'orelse', 'finalbody'):
+                sub = getattr(st, fld, None)
+                if isinstance(sub, list) and sub and \
+                        isinstance(sub[0], ast.stmt) and not isinstance(
+                            st, (ast.FunctionDef, ast.AsyncFunctionDef,
+                                 ast.ClassDef)):
+                    setattr(st, fld, rewrite(sub))
+            for hd in getattr(st, 'handlers', []) or []:
+                hd.body = rewrite(hd.body)
+            for cs in getattr(st, 'cases', []) or []:
+                cs.body = rewrite(cs.body)
+            out.append(reads.visit(st))
+        return out
+
+    node.body = rewrite(node.body)
+    ast.fix_missing_locations(node)
+    return True
+
+
 _inlined = {}
 
 
 def see_through(prog, f):
-    """FuncInfo of f with its same-module private helpers inlined (f itself
-    if there is nothing to inline)"""
+    """FuncInfo of f with its same-module private helpers inlined and its
+    record-valued locals split into fields (f itself if there is nothing to
+    do)"""
     key = id(f.node)
     if key in _inlined:
         return _inlined[key][1]
@@ -1483,14 +1787,18 @@ def see_through(prog, f):
             if _inlinable(prog, f, prog.resolve_call(f, c, f.cls)):
                 has = True
     out = f
+    node = copy.deepcopy(f.node)
+    done = False
     if has:
-        node = copy.deepcopy(f.node)
         seq = [1]
         tmp = FuncInfo(f.name, f.qual, f.module, f.cls, node)
         node.body = _inline_stmts(prog, tmp, node.body, seq)
-        if seq[0] > 1:
-            ast.fix_missing_locations(node)
-            out = FuncInfo(f.name, f.qual, f.module, f.cls, node)
+        done = seq[0] > 1
+    if _scalarize(prog, f, node):
+        done = True
+    if done:
+        ast.fix_missing_locations(node)
+        out = FuncInfo(f.name, f.qual, f.module, f.cls, node)
     _inlined[key] = (f, out)
     return out
 
@@ -2043,15 +2351,72 @@ def _check_generic(ev, f, n, a):
                                 % (f.where, short(a), short(t)))
 
 
+def _trip_count(ev, f, n):
+    """(Poly, [loop ast]): how often statement node n runs per call - the
+    product of the trip counts of the `for` loops around it (block membership
+    by the CFG, not by indentation).  A loop which can be left early, or a
+    `while` loop, has no count the evaluator knows: UNRECOGNISED-IDIOM."""
+    g = ev.g
+    out, loops = Poly.const(1), []
+    for h in n.loops:
+        head = g.nodes[h]
+        la = g.loop_ast[h]
+        body = g.loop_body[h]
+        if head.kind != 'for':
+            raise AnalysisError('UNRECOGNISED-IDIOM %s: `%s` inside `%s`'
+                                % (f.where, short(n.ast), short(la, 50)))
+        for b in body:
+            for e in g.succ[b]:
+                dst = g.nodes[e.dst]
+                if e.dst in body or e.dst == h or e.label == 'exc' or \
+                        dst.kind in ('raise', 'dispatch', 'handler'):
+                    continue
+                raise AnalysisError(
+                    'UNRECOGNISED-IDIOM %s: `%s` inside `%s`, which is left '
+                    'early at `%s`' % (f.where, short(n.ast), short(la, 50),
+                                       short(g.nodes[b].ast, 50)))
+        it = la.iter
+        while isinstance(it, ast.Call) and isinstance(it.func, ast.Name) and \
+                it.func.id in ('enumerate', 'reversed', 'sorted', 'list',
+                               'tuple') and len(it.args) == 1 and \
+                not it.keywords:
+            it = it.args[0]
+        if isinstance(it, ast.Call) and isinstance(it.func, ast.Name) and \
+                it.func.id == 'range' and len(it.args) == 1:
+            cnt = ev.poly(it.args[0], h)
+        elif isinstance(it, (ast.List, ast.Tuple)) and not any(
+                isinstance(x, ast.Starred) for x in it.elts):
+            cnt = Poly.const(len(it.elts))
+        else:
+            ln = ast.Call(func=ast.Name(id='len', ctx=ast.Load()), args=[it],
+                          keywords=[])
+            ast.copy_location(ln, it)
+            ast.fix_missing_locations(ln)
+            cnt = ev.poly(ln, h)
+        out = out * cnt
+        loops.append(la)
+    return out, loops
+
+
 def agent_delta(prog, rep, attr, written):
     """what ResourceManager._init_from_scratch does to rm_info.<attr> after
-    having read it from the agent config: (config key read, Poly delta)"""
+    having read it from the agent config: (config key read, Poly delta, Poly
+    delta if every adjustment ran once, [(adjustment, loops around it)]); an
+    adjustment inside a loop counts once per iteration"""
     f = see_through(prog, prog.method(RM[0], RM[1], '_init_from_scratch'))
     rep.saw(f)
     ev = SymEval(f)
     g = ev.g
     key = None
     delta = Poly()
+    once = Poly()
+    looped = []
+
+    def times(n, e):
+        cnt, loops = _trip_count(ev, f, n)
+        if loops:
+            looped.append((n.ast, loops))
+        return e * cnt
     for n in g.stmt_nodes():
         if n.kind != 'stmt':
             continue
@@ -2068,8 +2433,10 @@ def agent_delta(prog, rep, attr, written):
                         # x.attr = x.attr - e   (same as  x.attr -= e)
                         _check_generic(ev, f, n, a)
                         e = ev.poly(v.right, n.id)
-                        delta = delta - e if isinstance(v.op, ast.Sub) \
-                            else delta + e
+                        if isinstance(v.op, ast.Sub):
+                            e = -e
+                        once = once + e
+                        delta = delta + times(n, e)
                     elif d.startswith('self._cfg.') and d.count('.') == 2 and \
                             key is None:
                         key = d.split('.')[2]
@@ -2087,16 +2454,16 @@ def agent_delta(prog, rep, attr, written):
             _check_generic(ev, f, n, a)
             v = ev.poly(a.value, n.id)
             if isinstance(a.op, ast.Sub):
-                delta = delta - v
-            elif isinstance(a.op, ast.Add):
-                delta = delta + v
-            else:
+                v = -v
+            elif not isinstance(a.op, ast.Add):
                 raise AnalysisError('UNRECOGNISED-IDIOM %s: %s' % (f.where,
                                                                   short(a)))
+            once = once + v
+            delta = delta + times(n, v)
     if key is None:
         raise AnalysisError('UNRECOGNISED-IDIOM %s: rm_info.%s is not read '
                             'from self._cfg' % (f.where, attr))
-    return f, key, delta
+    return f, key, delta, once, looped
 
 
 def r17_4(prog, rep, rid='R17.4'):
@@ -2112,7 +2479,7 @@ def r17_4(prog, rep, rid='R17.4'):
     nd = node_divisions(f, ev, smap)
     for what, attr in (('cores', 'cores_per_node'), ('gpus', 'gpus_per_node')):
         div, dn, D = nd[what]
-        rf, key, delta = agent_delta(prog, rep, attr, None)
+        rf, key, delta, once, looped = agent_delta(prog, rep, attr, None)
         stores = _stores_to(g, avar, key)
         if len(stores) != 1:
             raise AnalysisError('UNRECOGNISED-IDIOM %s: %d stores to %s[%r], '
@@ -2122,6 +2489,28 @@ def r17_4(prog, rep, rid='R17.4'):
         sn, sv = stores[0]
         A = ev.poly(sv, sn.id)
         want = A + delta
+        if D != want and looped and D == A + once:
+            # the figures agree if every adjustment runs once: the loop around
+            # one of them is what breaks the agreement
+            adj, loops = looped[0]
+            rep.bad(rid, rf, 'adjust:%s' % attr,
+                    '%s: `%s` sits inside the loop `%s` and is applied once '
+                    'per iteration, so the agent works with %s usable %s per '
+                    'node, while _prepare_pilot sized the job with %s '
+                    '(divisor `%s` of its node computation; agent_cfg[%r] = '
+                    '%s): job size and agent view disagree as soon as the '
+                    'loop runs more than once'
+                    % (rf.qual, short(adj), 'for %s in %s' % (
+                           short(loops[-1].target), short(loops[-1].iter)),
+                       want.show(),
+                       what, D.show(), short(div.right), key, A.show()),
+                    rf.loc(adj),
+                    history='platform with blocked %s (ornl.frontier: 16 '
+                    'blocked hardware threads of 128) and a pilot of two '
+                    'nodes: the job was sized with 112 usable cores per node, '
+                    'the agent assumes 128 - 2 * 16 = 96 and its scheduler '
+                    'disagrees with its own node list' % what)
+            continue
         rep.check(D == want, rid, f, 'usable %s per node: client divisor `%s` '
                   '= %s  equals agent side  %s' % (what, short(div.right),
                                                    D.show(), want.show()),
@@ -4176,7 +4565,8 @@ def run(prog, rep, tier):
         'are ceil(max(cores/avail, gpus/avail)) with divisors depending on '
         'SMT and blocked lists; the agent reads the keys written; the divisors '
         'equal, as polynomials over the configured quantities, the usable '
-        'cores/gpus per node the agent derives from what it is handed; '
+        'cores/gpus per node the agent derives from what it is handed (an '
+        'adjustment inside a loop is applied once per iteration); '
         'get_resource_config, its callers and what they pass the config to '
         '(_start_pilot_bulk, _prepare_pilot, their resolved callees) write '
         'only to objects created in the call - never to a stored entry, to a '
@@ -4286,6 +4676,79 @@ _CEIL_C = 'math.ceil(requested_cores / avail_cores_per_node)'
 _CEIL_G = 'math.ceil(requested_gpus / avail_gpus_per_node)'
 _SMT = "            cores_per_node *= smt\n"
 _LBL = "        rcfg.label = resource\n\n        rcfg.verify()\n"
+
+# round 5 -----------------------------------------------------------------------
+_COPY = "        rcfg = ResourceConfig(from_dict=self._rcfgs[site][res])\n"
+_ADJ  = ("            rm_info.cores_per_node -= len(blocked_cores)\n"
+         "            rm_info.gpus_per_node  -= len(blocked_gpus)\n\n")
+_ADJ_C = "            rm_info.cores_per_node -= len(blocked_cores)\n"
+_ADJ_G = "            rm_info.gpus_per_node  -= len(blocked_gpus)\n"
+_NLOOP = "            for node in rm_info.node_list:\n\n"
+_CLOOP = "                for idx in blocked_cores:\n"
+_SIZING = ("        if cores_per_node and smt:\n"
+           "            cores_per_node *= smt\n\n"
+           "        avail_cores_per_node = cores_per_node\n"
+           "        avail_gpus_per_node  = gpus_per_node\n\n"
+           "        if avail_cores_per_node and blocked_cores:\n"
+           "            avail_cores_per_node -= len(blocked_cores)\n"
+           "            assert (avail_cores_per_node > 0)\n\n"
+           "        if avail_gpus_per_node and blocked_gpus:\n"
+           "            avail_gpus_per_node -= len(blocked_gpus)\n"
+           "            assert (avail_gpus_per_node >= 0)\n\n"
+           "        if requested_nodes:\n"
+           "            if not avail_cores_per_node:\n"
+           "                raise RuntimeError('use \"cores\" in PilotDescription')\n\n"
+           "        else:\n" + _BLK + "\n"
+           "        # now that we know the number of nodes to request, derive\n"
+           "        # the *actual* number of cores and gpus we allocate\n"
+           "        allocated_cores = (\n"
+           "            (requested_nodes + backup_nodes) * avail_cores_per_node) \\\n"
+           "                    or requested_cores\n"
+           "        allocated_gpus  = (\n"
+           "            (requested_nodes + backup_nodes) * avail_gpus_per_node)  \\\n"
+           "                    or requested_gpus\n")
+_PS_IMPORT = ("from collections import defaultdict\n",
+              "from collections import defaultdict, namedtuple\n\n"
+              "PilotSize = namedtuple('PilotSize', 'cores_per_node avail_cores_per_node '\n"
+              "                                    'nodes cores gpus')\n")
+_PS_DEF = "    def _stage_in(self, pilot, sds):\n"
+
+
+def _ps_helper(ret):
+    return ("    @staticmethod\n"
+            "    def _get_pilot_size(n_nodes, n_cores, n_gpus, n_backup,\n"
+            "                        cores_per_node, gpus_per_node, smt,\n"
+            "                        blocked_cores, blocked_gpus):\n\n"
+            "        if cores_per_node and smt:\n"
+            "            cores_per_node *= smt\n\n"
+            "        avail_cores = cores_per_node\n"
+            "        avail_gpus  = gpus_per_node\n\n"
+            "        if avail_cores and blocked_cores:\n"
+            "            avail_cores -= len(blocked_cores)\n"
+            "            assert (avail_cores > 0)\n\n"
+            "        if avail_gpus and blocked_gpus:\n"
+            "            avail_gpus -= len(blocked_gpus)\n"
+            "            assert (avail_gpus >= 0)\n\n"
+            "        if not n_nodes:\n"
+            "            if avail_cores:\n"
+            "                n_nodes = n_cores / avail_cores\n"
+            "            if avail_gpus:\n"
+            "                n_nodes = max(n_gpus / avail_gpus, n_nodes)\n"
+            "            n_nodes = math.ceil(n_nodes)\n\n"
+            "        elif not avail_cores:\n"
+            "            raise RuntimeError('use \"cores\" in PilotDescription')\n\n"
+            "        n_total = n_nodes + n_backup\n\n" + ret + "\n\n"
+            "    # --------------------------------------------------------------------------\n"
+            "    #\n" + _PS_DEF)
+
+
+_PS_CALL = ("        size = self._get_pilot_size(requested_nodes, requested_cores,\n"
+            "                                    requested_gpus,  backup_nodes,\n"
+            "                                    cores_per_node,  gpus_per_node, smt,\n"
+            "                                    blocked_cores,   blocked_gpus)\n\n")
+_PS_RET = ("        return PilotSize(cores_per_node, avail_cores, n_nodes,\n"
+           "                         n_total * avail_cores or n_cores,\n"
+           "                         n_total * avail_gpus  or n_gpus)\n")
 
 
 MUTATIONS = [
@@ -4465,6 +4928,40 @@ MUTATIONS = [
         (_SES, _DF, "        if not schema:\n            schema = 'local'\n")]),
     dict(name='R17.7 merged schema keyed by the resource label', rules=('R17.7',), edits=[
         (_SES, _LK, "        scfg = rcfg['schemas'][res]\n")]),
+    # ---- round 5 ----------------------------------------------------------------
+    dict(name='R17.6 seed C17-h2: the schema is merged into the stored entry itself, no copy', rules=('R17.6',), edits=[
+        (_SES, _COPY, "        rcfg = self._rcfgs[site][res]\n")]),
+    dict(name='R17.6 the same through a local holding the stored entry', rules=('R17.6',), edits=[
+        (_SES, _COPY, "        entry = self._rcfgs[site][res]\n        rcfg = entry\n")]),
+    dict(name='R17.4 seed C17-h3: blocked cores / gpus subtracted inside the loop over the nodes', rules=('R17.4',), edits=[
+        (_RMB, _ADJ + _NLOOP, _NLOOP + "                rm_info.cores_per_node -= len(blocked_cores)\n"
+                                       "                rm_info.gpus_per_node  -= len(blocked_gpus)\n\n")]),
+    dict(name='R17.4 only the cores adjustment slipped into the node loop, spelled x = x - n', rules=('R17.4',), edits=[
+        (_RMB, _ADJ + _NLOOP, _ADJ_G + "\n" + _NLOOP +
+               "                rm_info.cores_per_node = rm_info.cores_per_node - len(blocked_cores)\n\n")]),
+    dict(name='R17.4 blocked gpus subtracted inside the marking loop over the blocked cores', rules=('R17.4',), edits=[
+        (_RMB, _ADJ_G, ""),
+        (_RMB, _NLOOP + _CLOOP, _NLOOP + _CLOOP + "                    rm_info.gpus_per_node -= len(blocked_gpus)\n")]),
+    dict(name='R17.4 whole blocked count subtracted once per blocked core', rules=('R17.4',), edits=[
+        (_RMB, _ADJ_C, "            for _ in blocked_cores:\n                rm_info.cores_per_node -= len(blocked_cores)\n")]),
+    dict(name='R17.5 sizing in the namedtuple helper (C17-r9), node count rounded down there', rules=('R17.5',), edits=[
+        (_PML, ) + _PS_IMPORT,
+        (_PML, _SIZING, _PS_CALL +
+               "        cores_per_node       = size.cores_per_node\n"
+               "        avail_cores_per_node = size.avail_cores_per_node\n"
+               "        requested_nodes      = size.nodes\n"
+               "        allocated_cores      = size.cores\n"
+               "        allocated_gpus       = size.gpus\n"),
+        (_PML, _PS_DEF, _ps_helper(_PS_RET).replace('math.ceil(n_nodes)', 'math.floor(n_nodes)'))]),
+    dict(name='R17.4 sizing in the namedtuple helper (C17-r9), raw and usable cores swapped in the record', rules=('R17.4',), edits=[
+        (_PML, ) + _PS_IMPORT,
+        (_PML, _SIZING, _PS_CALL +
+               "        cores_per_node       = size.cores_per_node\n"
+               "        avail_cores_per_node = size.avail_cores_per_node\n"
+               "        requested_nodes      = size.nodes\n"
+               "        allocated_cores      = size.cores\n"
+               "        allocated_gpus       = size.gpus\n"),
+        (_PML, _PS_DEF, _ps_helper(_PS_RET.replace('PilotSize(cores_per_node, avail_cores,', 'PilotSize(avail_cores, cores_per_node,')))]),
 ]
 
 SILENT = [
@@ -4658,4 +5155,48 @@ SILENT = [
                "    def get_resource_config(self, resource, schema=None):\n")]),
     dict(name='R17.7 merged operand read inline, keyword call', edits=[
         (_SES, _LK + "\n        ru.dict_merge(rcfg, scfg, ru.OVERWRITE)", "        ru.dict_merge(rcfg, rcfg.schemas[schema], policy=ru.OVERWRITE)")]),
+    # ---- round 5 ----------------------------------------------------------------
+    dict(name='resolver copies through a local holding the stored entry', edits=[
+        (_SES, _COPY, "        entry = self._rcfgs[site][res]\n        rcfg  = ResourceConfig(from_dict=entry)\n")]),
+    dict(name='blocked cores subtracted one by one in a loop over the blocked list', edits=[
+        (_RMB, _ADJ_C, "            for _ in blocked_cores:\n                rm_info.cores_per_node -= 1\n")]),
+    dict(name='blocked cores / gpus subtracted after the marking loop, count in a local', edits=[
+        (_RMB, _ADJ, ""),
+        (_RMB, "                    node['gpus'][idx] = rpc.DOWN\n",
+               "                    node['gpus'][idx] = rpc.DOWN\n\n"
+               "            n_blocked = len(blocked_cores)\n"
+               "            rm_info.cores_per_node -= n_blocked\n"
+               "            rm_info.gpus_per_node  -= len(blocked_gpus)\n")]),
+    dict(name='blocked gpus subtracted by a range() loop of the same length', edits=[
+        (_RMB, _ADJ_G, "            for _ in range(len(blocked_gpus)):\n                rm_info.gpus_per_node -= 1\n")]),
+    dict(name='seed C17-r9: sizing arithmetic in a static helper returning a namedtuple', edits=[
+        (_PML, ) + _PS_IMPORT,
+        (_PML, _SIZING, _PS_CALL +
+               "        cores_per_node       = size.cores_per_node\n"
+               "        avail_cores_per_node = size.avail_cores_per_node\n"
+               "        requested_nodes      = size.nodes\n"
+               "        allocated_cores      = size.cores\n"
+               "        allocated_gpus       = size.gpus\n"),
+        (_PML, _PS_DEF, _ps_helper(_PS_RET))]),
+    dict(name='the same, record built by keyword, read by unpacking and by index', edits=[
+        (_PML, ) + _PS_IMPORT,
+        (_PML, _SIZING, _PS_CALL +
+               "        cores_per_node, avail_cores_per_node, requested_nodes, _c, _g = size\n"
+               "        allocated_cores      = size[3]\n"
+               "        allocated_gpus       = size[-1]\n"),
+        (_PML, _PS_DEF, _ps_helper(
+            "        result = PilotSize(nodes=n_nodes, cores_per_node=cores_per_node,\n"
+            "                           avail_cores_per_node=avail_cores,\n"
+            "                           cores=n_total * avail_cores or n_cores,\n"
+            "                           gpus=n_total * avail_gpus or n_gpus)\n"
+            "        return result\n"))]),
+    dict(name='sizing results collected in a namedtuple local of _prepare_pilot itself', edits=[
+        (_PML, ) + _PS_IMPORT,
+        (_PML, "        if rcfg.numa_domain_map:\n            numa_domains_per_node = len(rcfg.numa_domain_map)\n",
+               "        size = PilotSize(cores_per_node, avail_cores_per_node, requested_nodes,\n"
+               "                         allocated_cores, allocated_gpus)\n"
+               "        requested_nodes = size.nodes\n"
+               "        allocated_cores = size.cores\n"
+               "        allocated_gpus  = size.gpus\n\n"
+               "        if rcfg.numa_domain_map:\n            numa_domains_per_node = len(rcfg.numa_domain_map)\n")]),
 ]
